@@ -225,7 +225,7 @@ def probe_model(data):
     return "\n".join(out).encode("utf-8")
 
 
-MUTATING = {"open-w", "open-a", "remove", "rename", "mkdir", "rmdir", "copyfile", "chmod", "truncate", "link", "symlink", "mkstemp", "mkdtemp", "utime", "chown", "move", "rmtree", "copymode", "copystat", "copytree", "chunk"}
+MUTATING = {"write", "open-w", "open-a", "remove", "rename", "mkdir", "rmdir", "copyfile", "chmod", "truncate", "link", "symlink", "mkstemp", "mkdtemp", "utime", "chown", "move", "rmtree", "copymode", "copystat", "copytree", "chunk"}
 
 
 def evaluate(sc):
